@@ -32,6 +32,7 @@ LET: dict = {
     'X3u': {'k': 'index', 'idx': [{'arr': [2, 0]}], 's': [3], 'unique': True},
     'X3r': {'k': 'index', 'idx': [{'arr': [1, 1, 2]}], 's': [3]},
     'X3n': {'k': 'index', 'idx': [{'arr': [-1, 0, -1]}], 's': [3]},
+    'X2a': {'k': 'index', 'idx': [{'arr': [0, 1, -1, -2]}], 's': [2]},  # more distinct raw values than elements
     'X4s': {'k': 'index', 'idx': [{'slice': [0, 2, None]}], 's': [4]},
     'X23': {'k': 'index', 'idx': [':', {'arr': [0, 2, 2]}], 's': [2, 3], 'tuple': True},
     'X23e': {'k': 'index', 'idx': ['...', {'arr': [1, 1]}], 's': [2, 3], 'tuple': True},
@@ -66,6 +67,7 @@ LET: dict = {
     'X3uT': {'k': 'expr', 'e': {'T': 'X3u'}},
     'X3rT': {'k': 'expr', 'e': {'T': 'X3r'}},
     'X3nT': {'k': 'expr', 'e': {'T': 'X3n'}},
+    'X2aT': {'k': 'expr', 'e': {'T': 'X2a'}},
     'X23T': {'k': 'expr', 'e': {'T': 'X23'}},
     'X23eT': {'k': 'expr', 'e': {'T': 'X23e'}},
     'P3T': {'k': 'expr', 'e': {'T': 'P3'}},
@@ -213,6 +215,7 @@ PATTERNS = {
     'pack-packT': ['P3', 'P3T'],
     'indexT-index': ['X3rT', 'X3r'],
     'indexT-index-neg': ['X3nT', 'X3n'],
+    'indexT-index-alias': ['X2aT', 'X2a'],
     'indexT-index-axis1': ['X23T', 'X23'],
     'indexT-index-ellipsis': ['X23eT', 'X23e'],
     'reshape-reshapeT': ['Sh23', 'Sh23T'],
